@@ -9,7 +9,7 @@ package main
 // larger maps get 12 distinct (start bucket, slot) combinations (they stay sampled, not enumerated).
 //
 // Child check "maporder" (runs only inside vqm):
-//   part "process" (C06): block sequences are produced once with the ordinary random order. For every
+//   part "process" (C06): block sequences are produced once with draw 0. For every
 //     v a fresh node follows the same blocks with the draw fixed to v for EVERYTHING the process does
 //     (genesis, Append, Process, trie commits, pool resets): per block the outputs of the real
 //     StateProcessor.Process must equal the reference run's, no block may be refused, and at the end
@@ -57,9 +57,11 @@ type mapOrderRef struct {
 	commitBroken bool
 }
 
-// mapOrderReference produces the history with the ordinary (random) iteration order.
+// mapOrderReference produces the history with draw 0 (every map walked from its first slot): a
+// fixed draw rather than the ordinary random one, so that a difference found later is reproducible.
 func mapOrderReference(cs mapOrderCase, c10prefix []*types.WorkObject) (*mapOrderRef, string, error) {
-	setMapIter(false, 0)
+	setMapIter(true, 0)
+	defer setMapIter(false, 0)
 	ref := &mapOrderRef{}
 	switch cs.Kind {
 	case "word":
@@ -153,7 +155,7 @@ func mapOrderFollow(ref *mapOrderRef, v uint64) (string, string, error) {
 		if i >= ref.first {
 			fp, perr := f.n.VProcessFingerprint(b)
 			if perr != nil {
-				return "map-order:process-rejects", fmt.Sprintf("map-iteration draw %#x: Process refuses block %d (height %d) that it accepts under the ordinary order: %v", v, i, b.NumberU64(2), perr), nil
+				return "map-order:process-rejects", fmt.Sprintf("map-iteration draw %#x: Process refuses block %d (height %d) that it accepts under draw 0: %v", v, i, b.NumberU64(2), perr), nil
 			}
 			if want := ref.fps[i-ref.first]; fp != want {
 				return "map-order:process-output:" + c06FirstDiffField(want, fp), fmt.Sprintf("map-iteration draw %#x: outputs of Process for block %d (height %d) differ from the reference run:\n reference: %s\n draw %#x: %s", v, i, b.NumberU64(2), want, v, fp), nil
